@@ -271,7 +271,7 @@ def _gen_failing(rng, env, stats):
         redef = any(n in env for n, _ in pre_eff)
         return {"kind": "compile", "text": " ".join(pre + [bad]), "cut": None, "redef": redef, "infn": infn, "defines": bool(pre_eff)}
     # runtime error: the prefix runs (and may print / define), then a side-effect-free failing statement
-    funs = [n for n, k in env.items() if k == "fn"]
+    funs = [n for n, k in tmp_env.items() if k == "fn"]   # (after the prefix statements of this very line)
     fail_forms = ["1 / 0;", "len(5);", "5(1);", '"a" - 1;', "let %s = 1 / 0;" % rng.choice(VARS), "[1][0](2);", "-len(5);",
                   # failures *inside* a called function (frames are live when the error is raised)
                   "(fn(n) { n / 0 })(1);", "(fn(n) { len(n) })(5);", "(fn(n) { (fn(m) { m / 0 })(n) })(2);"]
